@@ -7,6 +7,7 @@ import (
 	stded25519 "crypto/ed25519"
 	"crypto/elliptic"
 	"crypto/x509"
+	"encoding/hex"
 	"fmt"
 	"math/big"
 
@@ -92,7 +93,44 @@ func foreignSPKI(w *bx.World) []bx.Seed {
 	}
 	add("ecdh-p256", pk.PublicKey())
 	add("rsa-legacy-form", &w.W2.Key.PublicKey)
+	// RSA keys in both forms whose modulus / exponent INTEGER is degenerate: zero, one, negative,
+	// empty content, non-minimal
+	algPSS := mustHexT("303d06092a864886f70d01010a3030a00d300b0609608648016503040202a11a301806092a864886f70d010108300b0609608648016503040202a203020130")
+	algRSA := mustHexT("300d06092a864886f70d0101010500")
+	ints := [][]byte{{}, {0x00}, {0x01}, {0x80}, {0xff}, {0x00, 0x80}, {0x00, 0x00, 0x01}, {0x01, 0x00, 0x01}, {0x7f, 0xff, 0xff, 0xff, 0xff}}
+	for ai, alg := range [][]byte{algPSS, algRSA} {
+		for ni, n := range ints {
+			for ei, e := range ints {
+				rsaPub := tlvT(0x30, append(tlvT(0x02, n), tlvT(0x02, e)...))
+				spki := tlvT(0x30, append(append([]byte{}, alg...), tlvT(0x03, append([]byte{0x00}, rsaPub...))...))
+				out = append(out, bx.Seed{Name: fmt.Sprintf("spki-degenerate-%d-%d-%d", ai, ni, ei), Msg: spki, Plain: true})
+			}
+		}
+	}
 	return out
+}
+
+func mustHexT(s string) []byte {
+	b, err := hex.DecodeString(s)
+	if err != nil {
+		panic(err)
+	}
+	return b
+}
+
+// tlvT is a DER TLV with definite length (short or long form).
+func tlvT(tag byte, content []byte) []byte {
+	n := len(content)
+	var l []byte
+	switch {
+	case n < 0x80:
+		l = []byte{byte(n)}
+	case n < 0x100:
+		l = []byte{0x81, byte(n)}
+	default:
+		l = []byte{0x82, byte(n >> 8), byte(n)}
+	}
+	return append(append([]byte{tag}, l...), content...)
 }
 
 func targets(w *bx.World) []target {
